@@ -24,3 +24,20 @@ for _nd in (1, 2, 3):
       out='nx[d] == 1 with minusOne (zero cells in a direction: division by zero in the real code, documented use is on cells so nx>=2)',
       assumptions=['Grid object is raw storage with _nDim and _nx initialised'],
       stubs=[])
+
+# C16.b indices <-> coordinates, unrotated
+_COORDTUS = ['src/Basic/Grid.cpp', 'src/Basic/Rotation.cpp', 'src/Basic/Utilities.cpp', 'src/Basic/AStringable.cpp']
+for _nd in (1, 2):
+    K('C16.b.%d' % _nd, property='C16', engine='symex', harness='C16/coord.cpp',
+      entries=['k_node_roundtrip', 'k_percent', 'k_point_to_cell'],
+      tus=_COORDTUS, defines={'all': {'VF_ND': _nd}},
+      bounds={'quick': 'ndim = %d, unrotated; x0, dx > 0 arbitrary reals; nx[d] in [1,1024]; node / cell indices arbitrary ints in [-2^20, 2^20]; '
+                       'query point an arbitrary real point; eps = EPSILON6 (the default)' % _nd},
+      timeout_ms={'quick': 120000, 'thorough': 600000}, validate={'quick': 30, 'thorough': 60}, validate_doubles='dyadic',
+      what='Grid::indicesToCoordinateInPlace, Grid::coordinateToIndicesInPlace (with Rotation::rotateDirect/rotateInverse identity path, FFFF): '
+           'coordinates == x0 + (i+percent)*dx; node -> coordinates -> same node (centered or not); a point strictly inside cell k is assigned to k; '
+           'return code 1 <=> index outside [0,nx)',
+      out='floating-point rounding of the mul/add/sub/div (this is what eps exists for; C16.c); points within eps*dx of a cell face; rotated grids (C16.d)',
+      assumptions=['real-arithmetic reading of the code', 'Grid object is raw storage with _nDim, _nx, _x0, _dx, _rotation._flagRot=false and the work vectors initialised', 'coordinates below 1e30 in absolute value (1.234e30 is the library\'s undefined value)',
+                   'cell-boundary points excluded as a band of relative width eps = 1e-6 on each side of a face (eps is the documented round-off guard argument)'],
+      stubs=[])
